@@ -371,9 +371,7 @@ Section IeTie.
     Variables md imv : val V.          (* mode, interp_method as passed *)
     Variable p : nat.                  (* extrema_opts['pad_width'] *)
     Variable re : bool.                (* ret_extrema *)
-    Variable km : imeth.               (* what the local callable `pchip` closes over: method and knots *)
-    Variables kL kM : list Z.
-    Local Notation P := (ie_prims A interp_of km kL kM).
+    Local Notation P := (ie_prims A interp_of).
 
     Definition ie_head1 : env V :=
       env_of ie_names
@@ -418,14 +416,14 @@ Section IeTie.
     Lemma ie_B_bad : forall f, md = bad_mode A -> exec_list P ie_segB f ie_head1 = Raise "ValueError".
     Proof. intros f Hm. unfold ie_head1. rewrite Hm. ev. reflexivity. Qed.
 
-    (* the grid and the interpolant on it; the local callable pchip is the one built from (km, kL, kM) *)
-    Lemma ie_C : forall f im L M, imv = VStr (imeth_str im) -> L <> [] -> km = im -> kL = L -> kM = M ->
+    (* the grid and the interpolant on it: the one built from (locs, pks) by the constructor of interp_method *)
+    Lemma ie_C : forall f im L M, imv = VStr (imeth_str im) -> L <> [] ->
       exists e1, exec_list P ie_segC f (ie_headK L M) = Normal e1 /\
         e1 = ie_headT L M (zrange (hd 0%Z L) (last L 0%Z))
                (map (interp_of im L M) (zrange (hd 0%Z L) (last L 0%Z))) (fun k => lookup k e1).
     Proof.
-      intros f im L M Hi HL H1 H2 H3. destruct L as [|a l]; [congruence|]. unfold ie_headK, ie_headT.
-      rewrite Hi, H1, H2, H3.
+      intros f im L M Hi HL. destruct L as [|a l]; [congruence|]. unfold ie_headK, ie_headT.
+      rewrite Hi.
       destruct im; (eexists; split; [ev; reflexivity | ev; reflexivity]).
     Qed.
 
@@ -476,23 +474,22 @@ Section IeTie.
     rewrite exec_list_app. reflexivity.
   Qed.
 
-  (* THE TIE for interp_envelope: extrema_opts None / {} / a dict with pad_width p and default pad options; the
-     table row of the local callable `pchip` is instantiated with interp_method and the padded extrema of the call *)
+  (* THE TIE for interp_envelope: extrema_opts None / {} / a dict with pad_width p and default pad options *)
   Theorem skeleton_interp_envelope : forall x m im eo re f,
-    exec (ie_prims A interp_of im (fst (knots x (ext_pad eo) m)) (snd (knots x (ext_pad eo) m)))
-         prog_interp_envelope f (ie_env0 A x (VStr (env_mode_str m)) (VStr (imeth_str im)) eo re)
+    exec (ie_prims A interp_of) prog_interp_envelope f
+         (ie_env0 A x (VStr (env_mode_str m)) (VStr (imeth_str im)) eo re)
     = ie_outcome A interp_of x (ext_pad eo) m im re.
   Proof.
     intros x m im eo re f. rewrite ie_split.
-    rewrite (ie_A x _ _ (ext_pad eo) re _ _ _ f eo im eq_refl eq_refl).
-    rewrite (ie_B x _ _ (ext_pad eo) re _ _ _ f m eq_refl).
-    unfold ie_outcome, knots.
+    rewrite (ie_A x _ _ (ext_pad eo) re f eo im eq_refl eq_refl).
+    rewrite (ie_B x _ _ (ext_pad eo) re f m eq_refl).
+    unfold ie_outcome.
     destruct (get_padded_extrema x (ext_pad eo) m) as [|L M|] eqn:G; [reflexivity| |reflexivity].
-    cbn [fst snd]. pose proof (padded_nonempty _ _ _ _ _ G) as HL.
-    destruct (ie_C x (VStr (env_mode_str m)) (VStr (imeth_str im)) (ext_pad eo) re im L M f im L M
-                eq_refl HL eq_refl eq_refl eq_refl) as (e3 & H3 & E3).
+    pose proof (padded_nonempty _ _ _ _ _ G) as HL.
+    destruct (ie_C x (VStr (env_mode_str m)) (VStr (imeth_str im)) (ext_pad eo) re f im L M eq_refl HL)
+      as (e3 & H3 & E3).
     rewrite H3, E3.
-    destruct (ie_D x (VStr (env_mode_str m)) (VStr (imeth_str im)) (ext_pad eo) re im L M f L M
+    destruct (ie_D x (VStr (env_mode_str m)) (VStr (imeth_str im)) (ext_pad eo) re f L M
                 (zrange (hd 0%Z L) (last L 0%Z)) (map (interp_of im L M) (zrange (hd 0%Z L) (last L 0%Z)))
                 (fun k => lookup k e3) HL) as (e4 & H4 & E4).
     rewrite H4, E4, ie_E.
@@ -501,19 +498,19 @@ Section IeTie.
     destruct (length (filter _ _) =? length x)%nat; reflexivity.
   Qed.
 
-  Theorem skeleton_interp_envelope_bad_method : forall km kL kM x md eo re f,
-    exec (ie_prims A interp_of km kL kM) prog_interp_envelope f (ie_env0 A x md (bad_method A) eo re)
+  Theorem skeleton_interp_envelope_bad_method : forall x md eo re f,
+    exec (ie_prims A interp_of) prog_interp_envelope f (ie_env0 A x md (bad_method A) eo re)
     = Raise "ValueError".
-  Proof. intros. rewrite ie_split, (ie_A_bad x md _ re km kL kM f eo eq_refl). reflexivity. Qed.
+  Proof. intros. rewrite ie_split, (ie_A_bad x md _ re f eo eq_refl). reflexivity. Qed.
 
-  Theorem skeleton_interp_envelope_bad_mode : forall km kL kM x im eo re f,
-    exec (ie_prims A interp_of km kL kM) prog_interp_envelope f
+  Theorem skeleton_interp_envelope_bad_mode : forall x im eo re f,
+    exec (ie_prims A interp_of) prog_interp_envelope f
          (ie_env0 A x (bad_mode A) (VStr (imeth_str im)) eo re)
     = Raise "ValueError".
   Proof.
     intros. rewrite ie_split.
-    rewrite (ie_A x (bad_mode A) (VStr (imeth_str im)) (ext_pad eo) re km kL kM f eo im eq_refl eq_refl).
-    rewrite (ie_B_bad x (bad_mode A) (VStr (imeth_str im)) (ext_pad eo) re km kL kM f eq_refl). reflexivity.
+    rewrite (ie_A x (bad_mode A) (VStr (imeth_str im)) (ext_pad eo) re f eo im eq_refl eq_refl).
+    rewrite (ie_B_bad x (bad_mode A) (VStr (imeth_str im)) (ext_pad eo) re f eq_refl). reflexivity.
   Qed.
 
   (* ie_outcome against Envelope.envelope: an envelope is returned iff the model has one, and it is that one *)
